@@ -188,6 +188,9 @@ CONTRACTS.append(Contract(
 from contracts import c09_frames  # noqa: E402
 
 CONTRACTS += c09_frames.CONTRACTS
+from contracts import c04 as _c04  # noqa: E402
+
+CONTRACTS += [c for c in _c04.CONTRACTS if c.id == "_generate_rounds"]  # incl. its frame: the customised class is not written when a cost is drawn
 BOUNDED = [Bounded("c09", "harness/c09.py", descr="option grids incl. chains of using() and parent-after-child behaviour", timeout=900)]
 
 MUTANTS = [
